@@ -172,6 +172,9 @@ def core (set : List Raw) (t : TxV) : Option Pos :=
 /-- `CheckTxBlockedAccount` (fork gated) / `CheckTxBlockedAccountImmediate` (`active = true`). -/
 def check (active : Bool) (set : List Raw) (t : TxV) : Option Pos := if active then core set t else none
 
+/-- `cfg.IsFork(height, ForkAccountBlacklist)`: the rule is active from the configured height on. -/
+def activeAt (forkHeight height : Nat) : Bool := decide (forkHeight ≤ height)
+
 /-! ### enforcement points -/
 
 inductive Ty where
@@ -184,6 +187,8 @@ inductive Item where
   | single (t : TxV) (base : Ty)
   | group (ts : List (TxV × Ty))
   | proxied (outer : TxV) (inner : Option TxV) (base : Ty)   -- inner = none: the payload is not a transaction
+  | forwarded (t : TxV) (base : Ty)   -- para chain only: `IsForward2MainChainTx(cfg, tx)` (a transaction of another chain, or
+                                      -- of this para chain with an executor listed in rpc.parachain.forwardExecs)
   deriving Repr
 
 /-- the transactions whose four positions the executor looks at for this item. -/
@@ -191,6 +196,12 @@ def Item.effective : Item → List TxV
   | .single t _ => [t]
   | .group ts => ts.map (·.1)
   | .proxied _ inner _ => inner.toList
+  | .forwarded t _ => [t]
+
+/-- `executor.checkTx` returns nil at its first line for such an item (para chain + IsForward2MainChainTx). -/
+def Item.isForwarded : Item → Bool
+  | .forwarded _ _ => true
+  | _ => false
 
 /-- receipts of `procExecTxList` for the item at a height where the rule is `active`. -/
 def execItem (active : Bool) (set : List Raw) : Item → List Ty
@@ -200,6 +211,7 @@ def execItem (active : Bool) (set : List Raw) : Item → List Ty
     match inner with
     | none => [base]
     | some t => [if (check active set t).isSome then .err else base]
+  | .forwarded _ base => [base]     -- no expiry, fee, executor-name or blacklist check at all
 
 /-- `AddTxsToBlock`: is the (single or group) entry put into the block by the producer. -/
 def producerTakes (active : Bool) (set : List Raw) (ts : List TxV) : Bool :=
@@ -249,18 +261,26 @@ def poolMembersPreFix (set : List Raw) : List PoolTx → Option PoolRes
 /-- mempool answer for a transaction or group; `reach`: the checks on the whole submission (signature, fee, size)
 passed; `base` = the answer with an empty blacklist. -/
 def poolSubmit (set : List Raw) (ts : List PoolTx) (reach : Bool) (base : PoolRes) : PoolRes :=
-  if !reach then base
+  if !reach then .other
   else match poolMembers set ts with
     | some r => r
     | none => base
 
+/-- `checkTxs` on a para-chain node: a submission with `IsForward2MainChainTx` is passed on before any check. -/
+def poolSubmitPara (set : List Raw) (ts : List PoolTx) (reach forwarded : Bool) (base : PoolRes) : PoolRes :=
+  if !reach then .other else if forwarded then base else poolSubmit set ts reach base
+
 def poolSubmitPreFix (set : List Raw) (ts : List PoolTx) (reach : Bool) (base : PoolRes) : PoolRes :=
-  if !reach then base
+  if !reach then .other
   else match poolMembersPreFix set ts with
     | some r => r
     | none => base
 
 /-- `eventAddDelayTx` / `addDelayTx`: is the delayed transaction cached. -/
 def delayTakes (set : List Raw) (t : TxV) : Bool := !(core set t).isSome
+
+/-- what happens to a cached delayed transaction when its delay expires: it is pushed through the pool's `checkTxs`
+(which does unwrap a proxy-exec transaction). -/
+def delayExpires (set : List Raw) (m : PoolTx) (base : PoolRes) : PoolRes := poolSubmit set [m] true base
 
 end C31
